@@ -13,14 +13,23 @@ package data
 // The decoders return a message or an error, never neither.
 //@ func data.DecodeUnixFSData
 //@ calls github.com/ipld/go-ipld-prime/fluent/qp.BuildMap
+// ... and a decoder reports no failure but the one that call reports (a well-formed message is never
+// rejected by a check of the decoder's own).
+//@ errors-from github.com/ipld/go-ipld-prime/fluent/qp.BuildMap
 //@ prop C09 C13 C14
 //@ ensures message-or-error: (err == nil ==> result != nil) && (err != nil ==> result == nil)
 //@ func data.DecodeUnixTime
 //@ calls github.com/ipld/go-ipld-prime/fluent/qp.BuildMap
+// ... and a decoder reports no failure but the one that call reports (a well-formed message is never
+// rejected by a check of the decoder's own).
+//@ errors-from github.com/ipld/go-ipld-prime/fluent/qp.BuildMap
 //@ prop C09 C13
 //@ ensures message-or-error: (err == nil ==> result != nil) && (err != nil ==> result == nil)
 //@ func data.DecodeUnixFSMetadata
 //@ calls github.com/ipld/go-ipld-prime/fluent/qp.BuildMap
+// ... and a decoder reports no failure but the one that call reports (a well-formed message is never
+// rejected by a check of the decoder's own).
+//@ errors-from github.com/ipld/go-ipld-prime/fluent/qp.BuildMap
 //@ prop C09 C13
 //@ ensures message-or-error: (err == nil ==> result != nil) && (err != nil ==> result == nil)
 //@ func data.DecodeUnixFSData$1
